@@ -473,6 +473,11 @@ func raceSig(rep string) string {
 	if len(frames) > 2 {
 		frames = frames[:2]
 	}
+	// one race, one signature: which of the two accesses the detector names first depends on the
+	// order in which the schedule executed them
+	if len(frames) == 2 && frames[1] < frames[0] {
+		frames[0], frames[1] = frames[1], frames[0]
+	}
 	return "race:" + strings.Join(frames, "|")
 }
 
